@@ -168,6 +168,9 @@ def gen_scenarios(plan_items, seed, out, scale=1.0):
             if fam == "tlcws":       # behaviours enumerated by TLC from the code-shaped model
                 k = dict(kv.split("=") for kv in params.split(",") if kv).get("k", "3")
                 args = [sys.executable, os.path.join(HERE, "gen", "tlcgen.py"), "--steps", k, "--sample", str(n), "--seed", str(seed * 131 + idx)]
+            if fam == "tlcev":       # ... from the event-path model
+                k = dict(kv.split("=") for kv in params.split(",") if kv).get("k", "3")
+                args = [sys.executable, os.path.join(HERE, "gen", "tlcgen.py"), "--model", "ev", "--steps", k, "--sample", str(n), "--seed", str(seed * 131 + idx)]
             if fam == "tlcrec":      # ... from the recursive-watch bookkeeping model
                 k = dict(kv.split("=") for kv in params.split(",") if kv).get("k", "3")
                 args = [sys.executable, os.path.join(HERE, "gen", "tlcgen.py"), "--model", "rec", "--steps", k, "--sample", str(n), "--seed", str(seed * 131 + idx)]
@@ -325,7 +328,7 @@ def _run_ino(prop, tier, seed, plan, tmp, t0, only_scn):
         log("violation: scenario=%s cause=%s" % (sid, cause))
         nrep += 1
     if drift:
-        log("MODEL-DRIFT: the code-shaped model predicted other table sizes than observed in %d generated behaviours, e.g. %s" % (len(drift), json.dumps(drift[0])))
+        log("MODEL-DRIFT: the code-shaped model predicted something else (table sizes, listed paths or delivered events) than observed in %d generated behaviours, e.g. %s" % (len(drift), json.dumps(drift[0])))
     for c, (k, sid) in known_hit.items():
         log("KNOWN-FINDING: property=%s cause=%s %s (e.g. scenario %s)" % (prop, c, k["text"], sid))
     for ln in out_lines:
